@@ -8,12 +8,14 @@ import (
 	"strconv"
 	"strings"
 	"testing"
+	"time"
 	"unicode"
 
 	"golang.org/x/text/unicode/norm"
 	"pgregory.net/rapid"
 
 	"verifharness/bn"
+	"verifharness/model"
 )
 
 // C15 — দেখাও prints each value faithfully, newline-terminated, consistent with +.
@@ -507,6 +509,56 @@ func TestC15(t *testing.T) {
 		// property names that are canonically equivalent but differently encoded are different names: an object
 		// that was given both shows both (the printed names look alike, being written in NFC), with their own values
 		c.Sub("equivalent-property-names", func(s *Sub) { c.c15EquivalentNames(s, "print") })
+		// every executed দেখাও has written its line by the time the program ends, however it ends: at the end of the
+		// text (with or without a final newline), by a runtime error, by a stray jump out of a top-level compound
+		// statement or out of a function, in the middle of a loop or of a nest of calls
+		c.Sub("prints-before-every-kind-of-end", func(s *Sub) {
+			P := bn.KwPrint
+			vals := []string{"\"line\"", "12.5", "[1, \"ক\u09cb\"]", "{k: nil}"}
+			compounds := []struct{ name, open, close string }{
+				{"top-level", "", ""},
+				{"block", "{\n", "}\n"},
+				{"nested-blocks", "{\n{\n", "}\n}\n"},
+				{"if-arm", bn.KwIf + " (" + bn.KwTrue + ") {\n", "}\n"},
+				{"else-arm", bn.KwIf + " (" + bn.KwFalse + ") { } " + bn.KwElse + " {\n", "}\n"},
+				{"while-body", bn.KwVar + " w = 0;\n" + bn.KwWhile + " (w < 2) {\nw = w + 1;\n", "}\n"},
+				{"for-body", bn.KwFor + " (" + bn.KwVar + " i = 0; i < 2; i = i + 1) {\n", "}\n"},
+				{"function-body", bn.KwFun + " host() {\n", "}\nhost();\n"},
+				{"function-called-in-loop", bn.KwFun + " host() {\n", "}\n" + bn.KwFor + " (" + bn.KwVar + " i = 0; i < 2; i = i + 1) { host(); }\n"},
+				{"nested-calls", bn.KwFun + " inner() {\n", "}\n" + bn.KwFun + " outer() { " + P + " \"outer\"; inner(); " + P + " \"outer-after\"; }\nouter();\n"},
+			}
+			ends := []string{"", bn.KwBreak + ";", bn.KwContinue + ";", bn.KwReturn + ";", bn.KwReturn + " 5;", "nope;", P + " 1 - nil;", "[1][7];", bn.BLen + "(5);", bn.KwIf + " (" + bn.KwTrue + ") { " + bn.KwBreak + "; }", "{ { " + bn.KwReturn + "; } }"}
+			var k int64
+			for _, cp := range compounds {
+				for _, e := range ends {
+					for _, v := range vals {
+						k++
+						if !c.Mine(k) {
+							continue
+						}
+						src := P + " \"first\";\n" + cp.open + P + " " + v + ";\n" + P + " \"second\";\n" + e + "\n" + P + " \"after-end\";\n" + cp.close + P + " \"last\";"
+						mc := c.runModelCase(s, src, "", model.Options{MaxSteps: 5000}, judgeOpts{checkLine: true})
+						if mc.Res.Outcome == model.OverBudget {
+							continue
+						}
+						c.Ev.EnumCase("prints-before-every-kind-of-end", true, func() string { return src }, "abrupt-end", "outcome-"+mc.Res.Outcome.String())
+						if mc.Sig != "" {
+							rp := mc.replay("print")
+							rp.Extra = map[string]string{"expr": "abrupt-end"}
+							s.Violation(rp)
+						}
+						// and through the real executable, as a file without a final newline
+						if k%4 == 0 && mc.Res.Outcome != model.Unspecified {
+							cr := c.CLIScript(src, "", 30*time.Second)
+							if ok, why := model.CompareStdout(mc.Res, cr.Stdout); !ok || cr.TimedOut {
+								s.Violation(Replay{Check: "print", Sig: "abrupt-end-cli", Source: src, Extra: map[string]string{"expr": "abrupt-end"}, Note: "through the executable: " + why, Observed: fmt.Sprintf("status=%d stdout=%q stderr=%q", cr.Status, clip(cr.Stdout, 300), clip(cr.Stderr, 200))})
+							}
+						}
+					}
+				}
+			}
+			c.Ev.MarkExhaustive(fmt.Sprintf("%d enclosing constructs x %d ways of ending x %d printed values", len(compounds), len(ends), len(vals)))
+		})
 		c.Sub("shared-containers", func(s *Sub) {
 			if c.Shard != 0 {
 				return
